@@ -2104,6 +2104,9 @@ impl CommandParser {
         }
         let seconds = Self::extract_string(&frames[2])?.parse::<u64>()
             .map_err(|_| FerrousError::Command(CommandError::InvalidIntegerValue))?;
+        if seconds == 0 {
+            return Err(FerrousError::Command(CommandError::Generic("invalid expire time in 'setex' command".into())));
+        }
         Ok(StringCommand::SetEx {
             key: Self::extract_bytes(&frames[1])?,
             value: Self::extract_bytes(&frames[3])?,
@@ -2117,6 +2120,9 @@ impl CommandParser {
         }
         let milliseconds = Self::extract_string(&frames[2])?.parse::<u64>()
             .map_err(|_| FerrousError::Command(CommandError::InvalidIntegerValue))?;
+        if milliseconds == 0 {
+            return Err(FerrousError::Command(CommandError::Generic("invalid expire time in 'psetex' command".into())));
+        }
         Ok(StringCommand::PSetEx {
             key: Self::extract_bytes(&frames[1])?,
             value: Self::extract_bytes(&frames[3])?,
